@@ -960,6 +960,7 @@ DLLIMPORT cfg_value_t *cfg_setopt(cfg_t *cfg, cfg_opt_t *opt, const char *value)
 	long int i = 0;
 	void *p = NULL;
 	char *endptr;
+	char *sown = NULL;	/* own copy of the string to store */
 
 	if (!cfg || !opt) {
 		errno = EINVAL;
@@ -1062,6 +1063,13 @@ DLLIMPORT cfg_value_t *cfg_setopt(cfg_t *cfg, cfg_opt_t *opt, const char *value)
 			errno = EINVAL;
 			return NULL;
 		}
+
+		/* the string may be one the option owns - the result of a
+		 * getter, or its present value handed back by the callback:
+		 * copy it before the option is touched */
+		sown = strdup(s);
+		if (!sown)
+			return NULL;
 		break;
 
 	case CFGT_BOOL:
@@ -1151,6 +1159,7 @@ DLLIMPORT cfg_value_t *cfg_setopt(cfg_t *cfg, cfg_opt_t *opt, const char *value)
 				if (!val) {
 					if (opt->type == CFGT_PTR && p && opt->freecb)
 						opt->freecb(p);
+					free(sown);
 					return NULL;
 				}
 			}
@@ -1170,9 +1179,7 @@ DLLIMPORT cfg_value_t *cfg_setopt(cfg_t *cfg, cfg_opt_t *opt, const char *value)
 
 	case CFGT_STR:
 		free(val->string);
-		val->string = strdup(s);
-		if (!val->string)
-			return NULL;
+		val->string = sown;
 		break;
 
 	case CFGT_SEC:
